@@ -446,9 +446,309 @@ def udpmap_constants(out):
         "handle_udp_relay_header: a parsed request is handed on unchanged with the sender's address", re.S)
 
 
+def lean_str(s):
+    if '"' in s or "\\" in s or any(ord(ch) < 32 or ord(ch) > 126 for ch in s):
+        raise Broken(f"literal {s!r} is not plain printable ASCII")
+    return '"' + s + '"'
+
+
+def vendored(crate, rel):
+    """Source file of the version of `crate` pinned by /repo/Cargo.lock, from cargo's registry (the sources the
+    harness builds against).  All copies found must be identical."""
+    import glob
+    lock = read("Cargo.lock")
+    ver = one(rf'\[\[package\]\]\nname = "{re.escape(crate)}"\nversion = "([^"]+)"', lock, f"Cargo.lock version of {crate}")
+    home = os.environ.get("CARGO_HOME", os.path.join(os.path.expanduser("~"), ".cargo"))
+    paths = sorted(glob.glob(os.path.join(home, "registry", "src", "*", f"{crate}-{ver}", rel)))
+    if not paths:
+        raise Broken(f"vendored source {crate}-{ver}/{rel} not found under {home}/registry/src")
+    texts = set()
+    for p in paths:
+        with open(p, encoding="utf-8") as f:
+            texts.add(f.read())
+    if len(texts) != 1:
+        raise Broken(f"vendored source {crate}-{ver}/{rel}: {len(paths)} copies differ")
+    return ver, texts.pop()
+
+
+def clientreq_constants(out):
+    """C14 (client half): the request `handshake_inner` builds (client/ws_connect.rs), the URL rules of
+    `ServerUrl::from_str` (arg/server_url.rs), and what tungstenite's `IntoClientRequest for Uri` /
+    `generate_request` put into / demand of the request (vendored source of the pinned version)."""
+    ws = strip_comments(read("penguin/src/client/ws_connect.rs"))
+    fn = one(r"async fn handshake_inner\(.*?\n\}\n", ws, "ws_connect.rs handshake_inner", re.S)
+
+    def at(pattern, what):
+        ms = list(re.finditer(pattern, fn, re.S))
+        if len(ms) != 1:
+            raise Broken(f"ws_connect.rs {what}: expected exactly one match of /{pattern}/, found {len(ms)}")
+        return ms[0]
+    # every use of the header map is an `insert` (replaces all values of the name); four of them
+    calls = re.findall(r"\breq_headers\s*\.\s*(\w+)\s*\(", fn)
+    if calls != ["insert"] * 4:
+        raise Broken(f"ws_connect.rs: expected four req_headers.insert(..) calls and nothing else on the header map, found {calls}")
+    one(r"let req_headers = req\.headers_mut\(\);", fn, "ws_connect.rs req.headers_mut()")
+    m_req = at(r"let mut req: Request = args\.server\.0\.clone\(\)\.into_client_request\(\)\?;", "request from the server URL")
+    m_proto = at(r'req_headers\.insert\(\s*"([a-z0-9-]+)",\s*HeaderValue::from_static\(PROTOCOL_VERSION\),?\s*\);', "protocol insert")
+    m_psk = at(r'if let Some\(ref ws_psk\) = args\.ws_psk \{\s*req_headers\.insert\("([a-z0-9-]+)", ws_psk\.clone\(\)\);\s*\}', "psk insert")
+    m_host = at(r'if let Some\(ref hostname\) = args\.hostname \{\s*req_headers\.insert\("([a-z0-9-]+)", hostname\.clone\(\)\);\s*'
+                r'tls_server_name = hostname\.to_str\(\)\.map_err\(super::Error::InvalidDomainName\)\?;\s*\}', "hostname insert")
+    m_custom = at(r"for header in &args\.header \{\s*req_headers\.insert\(&header\.name, header\.value\.clone\(\)\);\s*\}", "custom header loop")
+    m_tcp = at(r"tokio::net::TcpStream::connect\(\(host, port\)\)", "TCP connect")
+    m_send = at(r"client_async\(req, stream\)\.await\?", "client_async(req, stream)")
+    order = [m_req.start(), m_proto.start(), m_psk.start(), m_host.start(), m_custom.start(), m_tcp.start(), m_send.start()]
+    if order != sorted(order):
+        raise Broken("ws_connect.rs: the order is not URL request, protocol, psk, hostname, custom headers, TCP connect, client_async")
+    one(r"use penguin_mux::PROTOCOL_VERSION;", ws, "ws_connect.rs PROTOCOL_VERSION import")
+    out.append(f"def clientProtocolHeader : String := {lean_str(m_proto.group(1))}")
+    out.append(f"def clientPskHeader : String := {lean_str(m_psk.group(1))}")
+    out.append(f"def clientHostHeader : String := {lean_str(m_host.group(1))}")
+    out.append("/-- shape: request from the URL, then insert protocol, psk (if any), host (if `--hostname`; its `to_str` is")
+    out.append("    demanded right there, before the TCP connect), every custom header in order, then connect, then client_async -/")
+    out.append("def clientInsertOrderProtocolPskHostCustom : Bool := true")
+    # --ws-psk (client and server): how the command-line text becomes the HeaderValue (arg/mod.rs)
+    am = strip_comments(read("penguin/src/arg/mod.rs")).split("#[cfg(test)]\nmod tests")[0]
+    fields = re.findall(r"#\[arg\(long((?:, value_parser = \w+)?)\)\]\s*pub ws_psk: Option<HeaderValue>,", am)
+    if len(fields) != 2:
+        raise Broken(f"arg/mod.rs: expected the two `ws_psk: Option<HeaderValue>` fields (client, server) with #[arg(long[, value_parser = f])], found {len(fields)}")
+    if fields[0] != fields[1]:
+        raise Broken(f"arg/mod.rs: the client's and the server's --ws-psk are parsed differently: {fields}")
+    if fields[0] == "":
+        trims = False
+    else:
+        fname = fields[0].split("=")[1].strip()
+        body = one(rf"fn {fname}\(s: &str\) -> Result<HeaderValue, http::header::InvalidHeaderValue> \{{(.*?)\n\}}\n", am, f"arg/mod.rs {fname}", re.S)
+        if re.sub(r"\s", "", body) != "HeaderValue::from_str(s.trim_matches(['','\\t']))":
+            raise Broken(f"arg/mod.rs {fname}: not `HeaderValue::from_str(s.trim_matches([' ', '\\t']))`: {body.strip()!r}")
+        trims = True
+    out.append("/-- `--ws-psk` (client and server alike): spaces and tabs around the text are dropped before it becomes the key -/")
+    out.append(f"def pskArgTrimsOws : Bool := {'true' if trims else 'false'}")
+    # ServerUrl::from_str
+    su = strip_comments(read("penguin/src/arg/server_url.rs")).split("#[cfg(test)]")[0]
+    f2 = one(r"fn from_str\(url: &str\) -> Result<Self, Self::Err> \{.*?\n    \}\n", su, "server_url.rs from_str", re.S)
+    v = one(r'convert_idn_with_default_scheme\(url, "([a-z]+)"\)', f2, "server_url.rs default scheme")
+    out.append(f"def urlDefaultScheme : String := {lean_str(v)}")
+    mt = one(r"match old_scheme\.as_ref\(\) \{(.*?)\n        \}\?;", f2, "server_url.rs scheme match", re.S)
+    arms = re.findall(r'((?:"[^"]*"\s*\|\s*)*"[^"]*")\s*=>\s*Ok\(\("([a-z]+)",\s*(\d+)\)\),', mt)
+    rest = re.sub(r'((?:"[^"]*"\s*\|\s*)*"[^"]*")\s*=>\s*Ok\(\("([a-z]+)",\s*(\d+)\)\),', "", mt).strip()
+    if len(arms) != 2 or rest != "_ => Err(Error::IncorrectScheme(old_scheme)),":
+        raise Broken(f"server_url.rs: scheme match is not two Ok arms and a default IncorrectScheme arm: {rest!r}")
+    rows = []
+    for pats, new, port in arms:
+        rows.append("(" + lean_strs(re.findall(r'"([^"]*)"', pats)) + f", {lean_str(new)}, {int(port)})")
+    out.append("/-- `(accepted scheme spellings, scheme of the built URL, port added when the URL has none)` -/")
+    out.append("def urlSchemeTable : List (List String × String × Nat) := [" + ", ".join(rows) + "]")
+    one(r"let authority = url_parts\.authority\.ok_or\(Error::MissingHost\)\?;", f2, "server_url.rs missing host")
+    one(r'if authority\.port_u16\(\)\.is_none\(\) \{\s*Authority::from_str\(&format!\("\{authority\}:\{default_port\}"\)\)\?\s*\} else \{\s*authority\s*\}',
+        f2, "server_url.rs default port")
+    v = one(r'\.path_and_query\(\s*url_parts\s*\.path_and_query\s*\.unwrap_or_else\(\|\| PathAndQuery::from_static\("([^"]*)"\)\),?\s*\)',
+            f2, "server_url.rs path_and_query kept, defaulted")
+    out.append("/-- the user's path and query are kept as they are; this is used only when the URL has none -/")
+    out.append(f"def urlDefaultPathAndQuery : String := {lean_str(v)}")
+    # tungstenite (the version /repo/Cargo.lock pins)
+    ver, tc = vendored("tungstenite", "src/client.rs")
+    tc = strip_comments(tc)
+    out.append(f"def tungsteniteVersion : String := {lean_str(ver)}")
+    blk = one(r"impl IntoClientRequest for Uri \{(.*?)\n\}\n", tc, "tungstenite IntoClientRequest for Uri", re.S)
+    chain = one(r"let req = Request::builder\(\)(.*?)\.body\(\(\)\)\?;", blk, "tungstenite request builder chain", re.S)
+    steps = re.findall(r'\.(\w+)\(((?:[^()]|\(\))*)\)', chain)
+    if [s for (s, _a) in steps] != ["method"] + ["header"] * 5 + ["uri"] or re.sub(r'\.(\w+)\(((?:[^()]|\(\))*)\)', "", chain).strip():
+        raise Broken(f"tungstenite request builder: unexpected chain {[s for (s, _a) in steps]}")
+    meth = one(r'"([A-Z]+)"', steps[0][1], "tungstenite request method")
+    out.append(f"def tungMethod : String := {lean_str(meth)}")
+    if steps[-1][1].strip() != "self":
+        raise Broken("tungstenite request builder: .uri(self) expected")
+    hs = []
+    for (_s, a) in steps[1:6]:
+        m = re.fullmatch(r'\s*"([A-Za-z0-9-]+)",\s*("([^"]*)"|host|generate_key\(\))\s*', a)
+        if not m:
+            raise Broken(f"tungstenite request builder: unexpected header arguments {a!r}")
+        val = m.group(3) if m.group(3) is not None else {"host": "<host>", "generate_key()": "<key>"}[m.group(2)]
+        hs.append("(" + lean_str(m.group(1).lower()) + ", " + lean_str(val) + ")")
+    out.append("/-- the `.header(..)` calls of `IntoClientRequest for Uri`, in order, names as `http::HeaderName` stores them")
+    out.append("    (lower case); `<host>` = the URL's authority after any `@`, `<key>` = `generate_key()` -/")
+    out.append("def tungBuilderHeaders : List (String × String) := [" + ", ".join(hs) + "]")
+    one(r"let host = authority\s*\.find\('@'\)\s*\.map\(\|idx\| authority\.split_at\(idx \+ 1\)\.1\)\s*\.unwrap_or_else\(\|\| authority\);",
+        blk, "tungstenite host = authority after '@'")
+    _v, th = vendored("tungstenite", "src/handshake/client.rs")
+    th = strip_comments(th).split("#[cfg(test)]")[0]
+    gk = one(r"pub fn generate_key\(\) -> String \{(.*?)\n\}\n", th, "tungstenite generate_key", re.S)
+    v = one(r"let r: \[u8; (\d+)\] = rand::random\(\);\s*data_encoding::BASE64\.encode\(&r\)", gk, "tungstenite generate_key: base64 of n random bytes")
+    out.append(f"def tungKeyRandomBytes : Nat := {int(v)}")
+    gr = one(r"pub fn generate_request\(mut request: Request\).*?\n\}\n", th, "tungstenite generate_request", re.S)
+    keyname = one(r'const KEY_HEADERNAME: &str = "([A-Za-z0-9-]+)";', gr, "tungstenite KEY_HEADERNAME")
+    lst = one(r"const WEBSOCKET_HEADERS: \[&str; 5\] =\s*\[(.*?)\];", gr, "tungstenite WEBSOCKET_HEADERS", re.S)
+    names = []
+    for item in [x.strip() for x in lst.split(",") if x.strip()]:
+        m = re.fullmatch(r'"([A-Za-z0-9-]+)"', item)
+        if m:
+            names.append(m.group(1).lower())
+        elif item == "KEY_HEADERNAME":
+            names.append(keyname.lower())
+        else:
+            raise Broken(f"tungstenite WEBSOCKET_HEADERS: unexpected item {item!r}")
+    one(r"\.get\(KEY_HEADERNAME\)(?:(?!;).)*?\.to_str\(\)\?", gr, "generate_request: key to_str", re.S)
+    one(r"for &header in &WEBSOCKET_HEADERS \{\s*let value = headers\.remove\(header\)", gr, "generate_request: the five are removed and written first")
+    one(r"value = value\.to_str\(\)\.map_err\(", gr, "generate_request: value to_str")
+    out.append("/-- `generate_request`: these are taken out of the map and written first; each value must pass `HeaderValue::to_str` -/")
+    out.append("def tungTextHeaders : List String := " + lean_strs(names))
+    sp = one(r"fn extract_subprotocols_from_request\(request: &Request\).*?\n\}\n", th, "tungstenite extract_subprotocols_from_request", re.S)
+    v = one(r'request\.headers\(\)\.get\("([A-Za-z0-9-]+)"\)\s*\{\s*Ok\(Some\(subprotocols\.to_str\(\)\?', sp, "subprotocol header to_str")
+    out.append(f"def tungSubprotocolHeader : String := {lean_str(v.lower())}")
+    st = one(r"pub fn start\(.*?\n    \}\n", th, "tungstenite ClientHandshake::start", re.S)
+    i1 = st.find("extract_subprotocols_from_request(&request)?")
+    i2 = st.find("generate_request(request)?")
+    i3 = st.find("HandshakeMachine::start_write(stream, request)")
+    if not (0 <= i1 < i2 < i3):
+        raise Broken("tungstenite ClientHandshake::start: not subprotocols, generate_request, then start_write")
+    um = one(r"pub fn uri_mode\(uri: &Uri\) -> Result<Mode> \{(.*?)\n\}\n", tc, "tungstenite uri_mode", re.S)
+    ok = re.findall(r'Some\("([a-z]+)"\) => Ok\(Mode::\w+\)', um)
+    out.append("def tungSchemes : List String := " + lean_strs(ok))
+
+
+def remotespec_constants(out):
+    # C01 (glue): the client's remote-specification parser (penguin/src/arg/remote_spec.rs): default
+    # ports and hosts (the `default-is-ipv6` feature is off in the checked build), the segment limit
+    # of the tokenizer, the `unix:` prefix length, the arms of `match tokens[..]` in source order
+    # (first match wins: the model's `selectArm` must list the same patterns in the same order), the
+    # three post-checks in order, and the default ports the help text (arg/mod.rs) advertises
+    def lean_str(t):
+        return '"' + t.replace("\\", "\\\\").replace('"', '\\"') + '"'
+    src = strip_comments(read("penguin/src/arg/remote_spec.rs").split("#[cfg(test)]\nmod tests")[0])
+    for name, lean in (("SOCKS_DEFAULT_PORT", "remoteSocksDefaultPort"), ("HTTP_DEFAULT_PORT", "remoteHttpDefaultPort"),
+                       ("TPROXY_DEFAULT_PORT", "remoteTproxyDefaultPort")):
+        v = one(r"pub const %s\s*:\s*u16\s*=\s*([0-9_]+)\s*;" % name, src, f"remote_spec.rs {name}")
+        out.append(f"def {lean} : Nat := {intlit(v)}")
+    mac = one(r'#\[cfg\(not\(feature = "default-is-ipv6"\)\)\]\s*macro_rules! default_host \{(.*?)\n\}\n', src,
+              "remote_spec.rs default_host! (IPv4 variant)", re.S)
+    for kw, lean in (("local", "remoteDefaultLocalHost"), ("unspec", "remoteDefaultUnspecHost")):
+        v = one(r'\(%s, str\) => \{\s*"([^"\\]*)"\s*\};' % kw, mac, f"default_host!({kw}, str)")
+        out.append(f"def {lean} : String := {lean_str(v)}")
+    if not re.search(r"\(\[\$kw:ident\]\) => \{\s*\$crate::arg::default_host!\(\$kw, str\)\s*\};", mac):
+        raise Broken("default_host!([kw]) is no longer the bare string in the IPv4 variant")
+    tok = one(r"fn tokenize_remote\((.*?)\n\}\n", src, "remote_spec.rs tokenize_remote", re.S)
+    v = one(r"if tokens\.len\(\) >= (\d+) \{\s*return Err\(Error::TooManySegments\);\s*\}\s*if \$token\.is_empty\(\) \{\s*return Err\(Error::EmptySegment\);",
+            tok, "tokenize_remote: the segment-count check comes before the empty check")
+    out.append(f"def remoteMaxSegments : Nat := {int(v)}")
+    one(r"let end = stuff\.find\('\]'\)\.ok_or\(Error::BracketMismatch\)\?;\s*check_and_push!\(&stuff\[1\.\.end\]\);", tok,
+        "tokenize_remote: the closing bracket is looked for before the token is pushed")
+    fs = one(r"impl FromStr for Remote \{(.*?)\n\}\n", src, "remote_spec.rs impl FromStr for Remote", re.S)
+    one(r"let \(rest, proto\) = match s\.rsplit_once\('/'\) \{\s*Some\(\(rest, proto\)\) if !proto\.contains\(':'\) => \(rest, proto\.parse\(\)\?\),\s*_ => \(s, Protocol::Tcp\),\s*\};",
+        fs, "from_str: the protocol split")
+    body = one(r"let result = match tokens\[\.\.\] \{\n(.*?)\n        \};\n", fs, "from_str: match tokens[..]", re.S)
+    arms = re.findall(r"^            ((?:\[[^\n]*?\]|_)(?: if [^\n]*?)?) => (?:Self )?\{", body, re.M)
+    if len(arms) < 2 or arms[-1] != "_":
+        raise Broken(f"from_str: could not list the arms of match tokens[..] (found {len(arms)})")
+    out.append("def remoteMatchArms : List String := [" + ", ".join(lean_str(re.sub(r"\s+", " ", a)) for a in arms) + "]")
+    lens = sorted(set(int(x) for x in re.findall(r"uds_path\[(\d+)\.\.\]", body)))
+    pref = sorted(set(re.findall(r'uds_path\.starts_with\("([^"\\]*)"\)', body)))
+    if len(lens) != 1 or len(pref) != 1 or lens[0] != len(pref[0].encode("utf-8")):
+        raise Broken(f"from_str: unix-socket prefix {pref} and slice start {lens} do not agree")
+    out.append(f"def remoteUnixPrefix : String := {lean_str(pref[0])}")
+    checks = re.findall(r"if matches!\(\s*result,\s*Self \{(.*?)\.\.\s*\}\s*\) \{\s*return Err\(Error::UnsupportedCombination\(\s*\"([^\"]*)\",\s*\"([^\"]*)\",?\s*\)\);", fs, re.S)
+    if not checks:
+        raise Broken("from_str: no post-checks found")
+    out.append("def remotePostChecks : List (String × String × String) := [" + ", ".join(
+        "(" + ", ".join(lean_str(re.sub(r"\s+", " ", x.strip().rstrip(","))) for x in c) + ")" for c in checks) + "]")
+    v = one(r'\["stdio", "tproxy"\] => \{\s*return Err\(Error::UnsupportedCombination\(\s*"([^"]*)",\s*"([^"]*)",?\s*\)\);', body,
+            "from_str: the stdio + tproxy arm")
+    out.append(f"def remoteStdioTproxyTexts : String × String := ({lean_str(v[0])}, {lean_str(v[1])})")
+    pr = one(r"impl FromStr for Protocol \{(.*?)\n\}\n", src, "remote_spec.rs impl FromStr for Protocol", re.S)
+    one(r'match s\.to_lowercase\(\)\.as_str\(\) \{\s*"tcp" => Ok\(Self::Tcp\),\s*"udp" => Ok\(Self::Udp\),\s*other => Err\(Error::Protocol\(other\.to_string\(\)\)\),\s*\}',
+        pr, "Protocol::from_str")
+    one(r"macro_rules! add_brackets \{\s*\(\$host:expr\) => \{\s*if \$host\.contains\(':'\) \{\s*format!\(\"\[\{\}\]\", \$host\)\s*\} else \{\s*\$host\.to_string\(\)\s*\}\s*\};\s*\}",
+        src, "add_brackets!")
+    helptext = read("penguin/src/arg/mod.rs")
+    for kw, lean in (("socks", "remoteHelpSocksPort"), ("http", "remoteHelpHttpPort"), ("tproxy", "remoteHelpTproxyPort")):
+        v = one(r"The default LOCAL_PORT of an? `%s` remote is `(\d+)`" % kw, helptext, f"arg/mod.rs help text: default port of {kw}")
+        out.append(f"def {lean} : Nat := {int(v)}")
+
+
+HTTP_STATUS = {"OK": 200, "BAD_REQUEST": 400, "FORBIDDEN": 403, "NOT_FOUND": 404, "METHOD_NOT_ALLOWED": 405,
+               "INTERNAL_SERVER_ERROR": 500, "NOT_IMPLEMENTED": 501, "BAD_GATEWAY": 502, "SERVICE_UNAVAILABLE": 503,
+               "GATEWAY_TIMEOUT": 504}
+
+
+def httpproxy_constants(out):
+    # C01: the HTTP proxy entry point (client/handle_remote/http.rs, do_proxy_request): the fixed answers
+    # (status + body) with the condition each one is tied to, the bracket stripping of the host, the
+    # default ports, the treatment of a port that is not a u16, and the order of the effects
+    src = strip_comments(read("penguin/src/client/handle_remote/http.rs")).split("#[cfg(test)]")[0]
+    fn = one(r"async fn do_proxy_request\((.*?)\n\}\n", src, "http.rs do_proxy_request", re.S)
+    answer = r'make_static_body\(\s*StatusCode::(\w+),\s*b"([^"\\]*)",?\s*\)'
+    sites = 0
+
+    def fixed(lean, pattern, what, text=fn):
+        nonlocal sites
+        name, body = one(pattern, text, what, re.S)
+        if name not in HTTP_STATUS:
+            raise Broken(f"{what}: unknown StatusCode::{name}")
+        sites += 1
+        out.append(f"def httpStatus{lean} : Nat := {HTTP_STATUS[name]}")
+        out.append(f"/-- `{body}` -/")
+        out.append(f"def httpBody{lean} : List UInt8 := [" + ", ".join(str(b) for b in body.encode("utf-8")) + "]")
+
+    fixed("ShuttingDown", r"let Ok\(stream_command_tx_permit\) = hr\.stream_command_tx\.reserve\(\)\.await else \{\s*return Ok\(" + answer + r"\);",
+          "answer when reserve() fails")
+    fixed("NoAuthority", r"let Some\(target\) = req\.uri\(\)\.authority\(\) else \{\s*return Ok\(" + answer + r"\);",
+          "answer when the request has no authority")
+    # host: one pair of surrounding brackets stripped (only if both are there), or the host as it is
+    strip = re.findall(r"\.strip_prefix\('(.)'\)\s*\.and_then\(\|h\| h\.strip_suffix\('(.)'\)\)\s*\.unwrap_or\(host\);\s*"
+                       r"let host = Bytes::copy_from_slice\(host\.as_bytes\(\)\);", fn)
+    if len(strip) == 1:
+        out.append("def httpStripsBrackets : Bool := true")
+        out.append(f"def httpBracketOpen : Nat := {ord(strip[0][0])}")
+        out.append(f"def httpBracketClose : Nat := {ord(strip[0][1])}")
+    elif len(strip) == 0:
+        one(r"let host = Bytes::copy_from_slice\(target\.host\(\)\.as_bytes\(\)\);", fn, "host taken from the authority as it is")
+        out.append("def httpStripsBrackets : Bool := false")
+        out.append("def httpBracketOpen : Nat := 91")
+        out.append("def httpBracketClose : Nat := 93")
+    else:
+        raise Broken(f"do_proxy_request: bracket stripping found {len(strip)} times")
+    # port: the explicit port, else the default of the scheme; a port text that is not a u16 is refused
+    # (or, before that fix, read as if no port were written)
+    https, other = one(r"if req\.uri\(\)\.scheme\(\) == Some\(&Scheme::HTTPS\) \{\s*(\d+)\s*\} else \{\s*(\d+)\s*\}", fn, "default ports")
+    out.append(f"def httpDefaultPortHttps : Nat := {int(https)}")
+    out.append(f"def httpDefaultPort : Nat := {int(other)}")
+    new = re.findall(r"let port = match target\.port_u16\(\) \{\s*Some\(port\) => port,\s*None => \{(.*?)\n        \}\n    \};", fn, re.S)
+    if len(new) == 1:
+        one(r"let host_port = target\.as_str\(\)\.rsplit\('@'\)\.next\(\)\.unwrap_or_default\(\);\s*"
+            r"let port_text = host_port\.get\(target\.host\(\)\.len\(\)\.\.\)\.unwrap_or_default\(\);", new[0],
+            "port text = what follows the host in the authority")
+        fixed("InvalidPort", r'if !matches!\(port_text, "" \| ":"\) \{\s*return Ok\(' + answer + r"\);", "answer to a port that is not a u16", new[0])
+        out.append("def httpRejectsInvalidPort : Bool := true")
+    else:
+        one(r"let port = target\.port_u16\(\)\.unwrap_or_else\(\|\| \{", fn, "port: explicit or default")
+        out.append("def httpStatusInvalidPort : Nat := 400")
+        out.append("def httpBodyInvalidPort : List UInt8 := []")
+        out.append("def httpRejectsInvalidPort : Bool := false")
+    fixed("NoChannel", r"let Ok\(mux_stream\) = request_tcp_channel\(stream_command_tx_permit, host, port\)\.await else \{\s*return Ok\(" + answer + r"\);",
+          "answer when the main loop hands no stream over")
+    fixed("ConnectOk", r"if Method::CONNECT == req\.method\(\) \{.*?\n        \}\);\s*Ok\(" + answer + r"\)\s*\} else \{", "answer to a served CONNECT")
+    fixed("HandshakeFailed", r"let Ok\(\(mut client, conn\)\) = http1::handshake\(hyper_io\)\.await else \{\s*warn!\([^;]*\);\s*return Ok\(" + answer + r"\);",
+          "answer when the HTTP/1 handshake on the stream fails")
+    fixed("SendFailed", r"\.or_else\(\|e\| \{\s*warn!\([^;]*\);\s*Ok\(" + answer + r"\)\s*\}\)", "answer when the request cannot be sent / answered")
+    n = len(re.findall(r"make_static_body\(", fn))
+    if n != sites:
+        raise Broken(f"do_proxy_request builds {n} fixed answers, {sites} of them are known to the model")
+    # order of the effects: reserve, authority, tunnel request, method, handshake, send
+    marks = ["hr.stream_command_tx.reserve().await", "req.uri().authority()", "request_tcp_channel(stream_command_tx_permit, host, port).await",
+             "Method::CONNECT == req.method()", "hyper::upgrade::on(req).await", "into_copy_bidirectional(TokioIo::new(upgraded))",
+             "http1::handshake(hyper_io).await", ".send_request(req)"]
+    at = [fn.find(m) for m in marks]
+    if any(a < 0 for a in at) or at != sorted(at) or any(fn.count(m) != 1 for m in marks):
+        raise Broken(f"do_proxy_request: the effects are not in the order the model assumes (positions {at})")
+    out.append("/-- the tunnel is requested after the authority was looked at and before the method is -/")
+    out.append("def httpTunnelBeforeMethod : Bool := true")
+
+
 SECTIONS = {"Frame": frame_constants, "Config": config_constants, "Socks": socks_constants,
+            "ClientReq": clientreq_constants,
             "Client": client_constants, "Server": server_constants, "Tls": tls_constants,
-            "UdpMap": udpmap_constants}
+            "UdpMap": udpmap_constants,
+            "HttpProxy": httpproxy_constants,
+            "RemoteSpec": remotespec_constants}
 
 
 def write_if_changed(path, text):
